@@ -28,14 +28,14 @@ def rand_case(draw):
     gs = draw(objs.gemini_spec(foreign=True))
     big = draw(st.integers(0, 5)) == 0
     nmax = (30 if big else 14) if gs["base"] == "wasserstein" else (160 if big else 30)
-    return {"g": gs, "p": draw(gens.p_spec(n_max=nmax, k_max=16 if big else 6, scales=SCALES)), "x": draw(gens.x_spec()),
+    return {"g": gs, "p": draw(gens.p_spec(n_max=nmax, k_max=16 if big else 6, scales=SCALES)), "x": draw(gens.x_spec(kinds=gens.LOWLEVEL_KINDS)),
             "dseed": draw(gens.seeds), "mode": "random", "eps": draw(st.sampled_from(EPSILONS))}
 
 
 @st.composite
 def coord_case(draw):
     gs = draw(objs.gemini_spec(foreign=True))
-    return {"g": gs, "p": draw(gens.p_spec(n_max=4, k_max=3, scales=SCALES[:5])), "x": draw(gens.x_spec()),
+    return {"g": gs, "p": draw(gens.p_spec(n_max=4, k_max=3, scales=SCALES[:5])), "x": draw(gens.x_spec(kinds=gens.LOWLEVEL_KINDS)),
             "dseed": 0, "mode": "coords", "eps": draw(st.sampled_from(EPSILONS))}
 
 
@@ -59,7 +59,7 @@ def oracle_deriv(case):
     if v_plain != val:
         raise Violation(f"{label}: score {v_plain!r} without return_grad != {val!r} with return_grad")
     S = R.natural_scale(gs["base"], A)
-    if A is not None and float(np.max(np.abs(A))) < 1e-12:
+    if A is not None and float(np.max(np.abs(A))) < 1e-12 and gs["a"]["name"] == "cosine" and gs["a"]["form"] in ("named", "callable", "precomputed"):
         # the affinity itself is rounding noise (cosine distances of collinear points, ~1e-17): so are score and gradient
         return {"nontrivial": False, "classes": ["noise_level_affinity"], "counts": {"directions_accepted": 0, "kink_skipped": 0}}
     if gs["base"] == "mmd":
@@ -125,7 +125,7 @@ def clip_case(draw):
     K = draw(st.integers(2, 5))
     cells = st.sampled_from(["soft", "zero", "one", "below_eps", "above"])
     pattern = draw(st.lists(st.lists(cells, min_size=K, max_size=K), min_size=n, max_size=n))
-    return {"g": gs, "n": n, "K": K, "pattern": pattern, "pseed": draw(gens.seeds), "x": draw(gens.x_spec()),
+    return {"g": gs, "n": n, "K": K, "pattern": pattern, "pseed": draw(gens.seeds), "x": draw(gens.x_spec(kinds=gens.LOWLEVEL_KINDS)),
             "eps": draw(st.sampled_from([1e-12, 1e-6, 1e-3]))}
 
 
@@ -196,8 +196,26 @@ def wass_large_case(draw):
             "eps": draw(st.sampled_from([1e-12, 1e-3]))}
 
 
+@st.composite
+def small_units_case(draw):
+    """data in very small or very large units with kernels / metrics that are homogeneous in the data: scores and gradients
+    simply scale, nothing may be rounded to zero or lost against absolute thresholds"""
+    base = draw(st.sampled_from(["mmd", "wasserstein"]))
+    if base == "mmd":
+        a = draw(gens.kernel_spec(forms=("named", "precomputed", "callable"), names=["linear", "additive_chi2", "polynomial"]))
+        if a["name"] == "polynomial":
+            a["params"] = {"coef0": 0.0, "degree": draw(st.sampled_from([1, 2]))}
+    else:
+        a = draw(gens.metric_spec(forms=("named", "precomputed"), names=["euclidean", "manhattan", "l2", "cityblock"]))
+    gs = {"base": base, "ovo": draw(st.booleans()), "a": a}
+    return {"g": gs, "p": draw(gens.p_spec(n_min=2, n_max=12, k_max=4, scales=[0.1, 1.0, 4.0])),
+            "x": draw(gens.x_spec(kinds=("tiny", "tiny", "big"))), "dseed": draw(gens.seeds), "mode": "random",
+            "eps": draw(st.sampled_from([1e-12, 1e-6]))}
+
+
 def subs():
     return [
+        Sub("small_units", small_units_case(), oracle_deriv, 300, 6000, "homogeneous kernels / metrics on data scaled by 1e-12..1e-6 or 1e4..1e6"),
         Sub("wasserstein_large", wass_large_case(), oracle_deriv, 60, 1500, "Wasserstein on 40-150 samples, up to 6 clusters"),
         Sub("huge_shapes", huge_case(), oracle_deriv, 24, 300, "n beyond 1024 rows / n*K^2 beyond 2^20 (blocked code paths)"),
         Sub("logit_random", rand_case(), oracle_deriv, 6000, 120000, "4 random simplex directions per case"),
